@@ -111,6 +111,20 @@ class CompositeBasis(AbstractBasis):
             self.bases,
         ))
 
+    def split_indices(self):
+        """Return the DOF indices of each component basis."""
+        if self.equal_dofnum:
+            # the bases share one numbering
+            return [np.arange(basis.N, dtype=np.int32)
+                    for basis in self.bases]
+        offsets = np.cumsum([0] + [basis.N for basis in self.bases])
+        return [np.arange(offsets[k], offsets[k + 1], dtype=np.int32)
+                for k in range(len(self.bases))]
+
+    def split_bases(self):
+        """Return the component bases."""
+        return list(self.bases)
+
     def __repr__(self):
         rep = ""
         rep += "<skfem CompositeBasis object>\n"
